@@ -753,3 +753,90 @@ Example C12_ex_decode_classes :
    decide (is_nil (present_kinds exts6_default)) (present_kinds exts6_default) 0 = DTake KHopByHop /\
    from_slice 0 [] = Err (HLen (mkLenError 8 0 LIpv6ExtHeader 0))).
 Proof. vm_compute. repeat split; reflexivity. Qed.
+
+(* ==== round3 smalls begin ==== *)
+(* Round 3 (audit clause e): "decoding those bytes yields the same set and final number" through
+   EVERY decoder of the written bytes -- so far a theorem for the strict from_slice only, because the
+   lax / reader theorems need `bytes_ok` of their input and no C12 theorem said that the WRITTEN
+   bytes are bytes.  For every valid header set whose walk ends on a number the round trip can
+   hold for (C12_decode_write_iff: no extension number, or the number of a filled position):
+   the written bytes are bytes; from_slice, from_slice_lax (no stop error), read over a Cursor
+   (everything consumed) and read_limited (LimitedReader with exactly the written length left,
+   over a source that goes on with ANY further bytes `tail`, any chunking c and position p: the
+   tail is not touched) all return (e, n).
+   Lemmas: ExtChain/WrittenDecode.v (compositions; `write6_bytes_ok` of Builder/ProofsCrate.v). *)
+From EP Require Import ExtChain.WrittenDecode.
+
+Theorem C12_written_all_decoders : forall e first bs n, exts6_valid e = true ->
+  write e first = (bs, Ok tt) -> next_header e first = Ok n ->
+  (is_ext_number n = false \/ decide false (present_kinds e) n = DRefilled) ->
+  bytes_ok bs /\
+  from_slice first bs = Ok (e, n, []) /\
+  from_slice_lax first bs = Ok (e, n, [], None) /\
+  (exists s', read6 false first (mk_rstate (cursor bs) None) = (QOk (e, n), mk_rstate s' None) /\
+              src_data s' = [] /\ src_pulled s' = len bs) /\
+  (forall c p r tail, 1 <= c -> bytes_ok tail ->
+     lr_read r <= lr_max r -> lr_max r - lr_read r = len bs ->
+     exists m', read6 true first (mk_st (bs ++ tail) c p (MLim r))
+                  = (QOk (e, n), mk_st tail c (p + len bs) m') /\
+                view tail m' = [] /\ lim_of m' = true).
+Proof. exact written_decoders6. Qed.
+Print Assumptions C12_written_all_decoders.
+
+(* the four decoders agree on ANY byte string the strict decoder consumes completely *)
+Theorem C12_decoders_agree : forall first bs e n, bytes_ok bs ->
+  from_slice first bs = Ok (e, n, []) -> all_decoders6 first bs e n.
+Proof. exact decoders_agree6. Qed.
+Print Assumptions C12_decoders_agree.
+
+(* Ipv4Extensions: the round trip fails only for the empty set with first = 51 (C12_v4_decode_write_any) *)
+Theorem C12_v4_written_all_decoders : forall e first bs n, exts4_valid e = true ->
+  write4 e first = (bs, Ok tt) -> next_header4 e first = Ok n ->
+  (is_some (auth4 e) || negb (n =? ip_number_of KAuth))%bool = true ->
+  bytes_ok bs /\
+  from_slice4 first bs = Ok (e, n, []) /\
+  from_slice_lax4 first bs = Ok (e, n, [], None) /\
+  (exists s', read4 false first (mk_rstate (cursor bs) None) = (QOk (e, n), mk_rstate s' None) /\
+              src_data s' = [] /\ src_pulled s' = len bs) /\
+  (forall c p r tail, 1 <= c -> bytes_ok tail ->
+     lr_read r <= lr_max r -> lr_max r - lr_read r = len bs ->
+     exists m', read4 true first (mk_st (bs ++ tail) c p (MLim r))
+                  = (QOk (e, n), mk_st tail c (p + len bs) m') /\
+                view tail m' = [] /\ lim_of m' = true).
+Proof. exact written_decoders4. Qed.
+Print Assumptions C12_v4_written_all_decoders.
+
+Check (eq_refl : all_decoders6 = fun first bs e n =>
+  bytes_ok bs /\
+  from_slice first bs = Ok (e, n, []) /\
+  from_slice_lax first bs = Ok (e, n, [], None) /\
+  (exists s', read6 false first (mk_rstate (cursor bs) None) = (QOk (e, n), mk_rstate s' None) /\
+              src_data s' = [] /\ src_pulled s' = len bs) /\
+  (forall c p r tail, 1 <= c -> bytes_ok tail ->
+     lr_read r <= lr_max r -> lr_max r - lr_read r = len bs ->
+     exists m', read6 true first (mk_st (bs ++ tail) c p (MLim r))
+                  = (QOk (e, n), mk_st tail c (p + len bs) m') /\
+                view tail m' = [] /\ lim_of m' = true)).
+
+(* non-vacuity: both classes of the final number (ex_perm: 6, no extension number; a fragment header
+   announcing 44: filled position), a LimitedReader with exactly the written length over a longer
+   source with chunks of 3 bytes; IPv4 authentication header *)
+Example C12_ex_written_all_decoders :
+  (exts6_valid ex_perm = true /\ snd (write ex_perm 51) = Ok tt /\ next_header ex_perm 51 = Ok 6 /\
+   is_ext_number 6 = false /\
+   from_slice_lax 51 (fst (write ex_perm 51)) = Ok (ex_perm, 6, [], None) /\
+   fst (read6 false 51 (mk_rstate (cursor (fst (write ex_perm 51))) None)) = QOk (ex_perm, 6)) /\
+  (let e := mkExts6 None None None (Some (mkFrag 44 0 false 0)) None in
+   exts6_valid e = true /\ write e 44 = ([44; 0; 0; 0; 0; 0; 0; 0], Ok tt) /\ next_header e 44 = Ok 44 /\
+   decide false (present_kinds e) 44 = DRefilled /\
+   from_slice_lax 44 [44; 0; 0; 0; 0; 0; 0; 0] = Ok (e, 44, [], None) /\
+   read6 true 44 (mk_st ([44; 0; 0; 0; 0; 0; 0; 0] ++ [1; 2; 3]) 3 7 (MLim (lr_new 8 LS_IPV6_PAYLOAD 40 L_IPV6H)))
+     = (QOk (e, 44), mk_st [1; 2; 3] 3 15 (MLim (mk_limrd 8 LS_IPV6_PAYLOAD L_IPV6FRAG 40 8)))) /\
+  (let e := mkExts4 (Some (mkAuth 6 1 2 1 [1; 2; 3; 4])) in
+   exts4_valid e = true /\ write4 e 51 = ([6; 2; 0; 0; 0; 0; 0; 1; 0; 0; 0; 2; 1; 2; 3; 4], Ok tt) /\
+   next_header4 e 51 = Ok 6 /\
+   from_slice_lax4 51 [6; 2; 0; 0; 0; 0; 0; 1; 0; 0; 0; 2; 1; 2; 3; 4] = Ok (e, 6, [], None) /\
+   fst (read4 true 51 (mk_st ([6; 2; 0; 0; 0; 0; 0; 1; 0; 0; 0; 2; 1; 2; 3; 4] ++ [9; 9]) 5 0
+                          (MLim (lr_new 16 LS_IPV6_PAYLOAD 20 L_IPV6H)))) = QOk (e, 6)).
+Proof. vm_compute. repeat split; reflexivity. Qed.
+(* ==== round3 smalls end ==== *)
